@@ -454,22 +454,23 @@ def flip_bit(files, a, ew):
     return out
 
 
-def scenario(cx, a, sp, rng, kind):
+def scenario(cx, a, sp, rng, kind, s=None):
     """one address, one table: read oracle, write oracle (where the grammar has writes), read-back"""
     R, co = cx.R, cx.co
     ft = a[0]
-    s = co.render(sp, a)
+    s = co.render(sp, a) if s is None else s
     files = gen_table(rng, a)
     ew = [f[2] for f in files if f[0] == a[1]][0]
     cls = cls_of_addr(a)
-    case = {"kind": kind, "address": s, "addr": list(a), "spelling": [list(x) if isinstance(x, list) else x for x in sp], "files": files}
+    case = {"kind": kind, "address": s, "addr": list(a), "spelling": None if sp is None else [list(x) if isinstance(x, list) else x for x in sp], "files": files}
     R.case([kind, s, a], nontrivial=True)
     R.count("file_type", ft)
-    R.count("form", ("bit" if a[4] is not None else "word") + ("{n}" if a[5] > 1 else "") + ("/flat" if sp[7] and ft == "B" and a[4] is not None else ""))
-    R.count("element", "0" if a[2] == 0 else "255" if a[2] == 255 else "1-254")
-    R.count("file", "255" if a[1] == 255 else "<255")
-    R.count("letter_case", "lower" if sp[0] else "upper")
-    R.count("leading_zeros", "yes" if any(sp[2:7]) else "no")
+    if sp is not None:
+        R.count("form", ("bit" if a[4] is not None else "word") + ("{n}" if a[5] > 1 else "") + ("/flat" if sp[7] and ft == "B" and a[4] is not None else ""))
+        R.count("element", "0" if a[2] == 0 else "255" if a[2] == 255 else "1-254")
+        R.count("file", "255" if a[1] == 255 else "<255")
+        R.count("letter_case", "lower" if sp[0] else "upper")
+        R.count("leading_zeros", "yes" if any(sp[2:7]) else "no")
 
     # ---- read
     tables = [files] + ([flip_bit(files, a, ew)] if a[4] is not None else [])
@@ -589,7 +590,8 @@ def gen_reject(rng, co):
     if kind == "file" and r < 0.15 and ft not in "IO":
         bad = "0" * rng.randint(1, 3)
     elif r < 0.6:
-        bad = str(rng.randint(rng_max + 1, 10 ** limit - 1)).rjust(rng.choice([0, limit]), "0")
+        n = rng.choice([rng_max + 1, rng_max + 1, rng_max + 2, 10 ** limit - 1]) if rng.random() < 0.6 else rng.randint(rng_max + 1, 10 ** limit - 1)
+        bad = str(n).rjust(rng.choice([0, limit]), "0")
     else:
         # more digits than the grammar has; value out of range in any case
         n = rng.randint(10 ** limit, 10 ** (limit + 2) - 1)
@@ -621,6 +623,92 @@ def reject_oracle(cx, s, cls, rng):
             return
 
 
+# ---- the grammar of the property, read independently on arbitrary strings -----------------------------
+import re as _re
+
+_G_LFBN = _re.compile(r"([NBFL])(\d+):(\d+)(?:/(\d+))?(?:\{(\d+)\})?", _re.I)
+_G_FLAT = _re.compile(r"(B)(\d+)/(\d+)", _re.I)
+_G_S = _re.compile(r"(S):(\d+)(?:/(\d+))?(?:\{(\d+)\})?", _re.I)
+_G_IO = _re.compile(r"([IO])(\d+)?:(\d+)(?:\.(\d+))?(?:/(\d+))?", _re.I)
+_G_TC = _re.compile(r"([TC])(\d+):(\d+)\.([A-Z]+)", _re.I)
+_T_MN = {"PRE": (1, None), "ACC": (2, None), "EN": (0, 15), "TT": (0, 14), "DN": (0, 13)}
+_C_MN = {"PRE": (1, None), "ACC": (2, None), "CU": (0, 15), "CD": (0, 14), "DN": (0, 13), "OV": (0, 12), "UN": (0, 11), "UA": (0, 10)}
+
+
+def grammar(s):
+    """None = the property makes no demand on this string; ("addr", a) = a well-formed address of the
+    grammar; ("reject", cls) = of the grammar's form with a file / element / bit number out of range"""
+    def num(d, limit, lo, hi):
+        """-> value | 'long' (more digits than the grammar has) ; sets out-of-range flag"""
+        return int(d), len(d) > limit, not (lo <= int(d) <= hi)
+
+    long_, bad = False, False
+
+    def take(d, limit, lo, hi):
+        nonlocal long_, bad
+        v, l, b = num(d, limit, lo, hi)
+        long_ |= l
+        bad |= b
+        return v
+    m = _G_FLAT.fullmatch(s)
+    if m:
+        f = take(m.group(2), 3, 1, 255)
+        n = take(m.group(3), 4, 0, 4095)
+        if bad:
+            return ("reject", "reject:overlong-digit-run" if long_ else "reject:grammar")
+        return None if long_ else ("addr", ("B", f, n // 16, 0, n % 16, 1))
+    m = _G_LFBN.fullmatch(s)
+    if m:
+        ft = m.group(1).upper()
+        f = take(m.group(2), 3, 1, 255)
+        e = take(m.group(3), 3, 0, 255)
+        b = take(m.group(4), 2, 0, 15) if m.group(4) is not None else None
+        if bad:
+            return ("reject", "reject:overlong-digit-run" if long_ else "reject:grammar")
+        c = int(m.group(5)) if m.group(5) is not None else 1
+        if long_ or (b is not None and (ft in "FL" or m.group(5) is not None)) or not (1 <= c <= (63 if ft in "FL" else 127)):
+            return None
+        return ("addr", (ft, f, e, 0, b, c))
+    m = _G_S.fullmatch(s)
+    if m:
+        e = take(m.group(2), 3, 0, 255)
+        b = take(m.group(3), 2, 0, 15) if m.group(3) is not None else None
+        if bad:
+            return ("reject", "reject:overlong-digit-run" if long_ else "reject:grammar")
+        c = int(m.group(4)) if m.group(4) is not None else 1
+        if long_ or (b is not None and m.group(4) is not None) or not (1 <= c <= 127):
+            return None
+        return ("addr", ("S", 2, e, 0, b, c))
+    m = _G_IO.fullmatch(s)
+    if m:
+        ft = m.group(1).upper()
+        want = 0 if ft == "O" else 1
+        e = take(m.group(3), 3, 0, 255)
+        b = take(m.group(5), 2, 0, 15) if m.group(5) is not None else None
+        if bad:
+            return ("reject", "reject:overlong-digit-run" if long_ else "reject:grammar")
+        if m.group(2) is not None and int(m.group(2)) > 255:
+            return ("reject", "reject:io-file-number")
+        w = int(m.group(4)) if m.group(4) is not None else 0
+        if long_ or (m.group(2) is not None and (int(m.group(2)) != want or len(m.group(2)) > 3)) or w > 254 or (m.group(4) and len(m.group(4)) > 3):
+            return None
+        return ("addr", (ft, want, e, w, b, 1))
+    m = _G_TC.fullmatch(s)
+    if m:
+        ft = m.group(1).upper()
+        mn = (_T_MN if ft == "T" else _C_MN).get(m.group(4).upper())
+        if mn is None:
+            return None
+        f = take(m.group(2), 3, 1, 255)
+        e = take(m.group(3), 3, 0, 255)
+        if bad:
+            return ("reject", "reject:overlong-digit-run" if long_ else "reject:grammar")
+        return None if long_ else ("addr", (ft, f, e, mn[0], mn[1], 1))
+    if len(s) >= 2 and s[0].upper() in UNSUPPORTED and all(c in "0123456789:/.{}" for c in s[1:]):
+        return ("reject", "reject:unsupported-letter")
+    return None
+
+
 # ---- parse_tag correspondence -------------------------------------------------------------------------
 def canon_parse(d):
     if d is None:
@@ -647,10 +735,14 @@ def edits(s, rng, k):
     return out
 
 
-def parse_corr(R, co, strings):
+def parse_corr(R, co, strings, cx=None, rng=None, budget=0):
+    """model vs implementation on every string; and, for the strings the property's own grammar speaks about
+    (independent reader above): rejected ones must raise RequestError, accepted ones go through the full
+    driver-level scenario oracle (up to `budget` of them, disagreeing ones first)"""
     from pycomm3.slc_driver import parse_tag
     strings = [s for s in dict.fromkeys(strings) if all(31 < ord(c) < 127 for c in s)]
     outs = co.mp.batch(["parse " + fw.t_text(s) for s in strings])
+    todo_first, todo = [], []
     for s, o in zip(strings, outs):
         try:
             impl = canon_parse(parse_tag(s))
@@ -662,6 +754,24 @@ def parse_corr(R, co, strings):
         R.case(["parse", s], nontrivial=impl[0] == "tag")
         if got != impl:
             R.disagree("parse_tag", s, got, impl)
+        g = grammar(s)
+        if g is None:
+            continue
+        R.count("grammar_verdict", g[0] if g[0] == "addr" else g[1])
+        if g[0] == "reject":
+            if impl != ["none"]:
+                (todo_first if got != impl else todo).append((s, g))
+        else:
+            (todo_first if got != impl or impl[0] != "tag" else todo).append((s, g))
+    if cx is None:
+        return
+    if rng is not None:
+        rng.shuffle(todo)
+    for s, g in (todo_first + todo)[:budget]:
+        if g[0] == "reject":
+            reject_oracle(cx, s, g[1], rng)
+        else:
+            scenario(cx, g[1], None, rng, "stream", s=s)
 
 
 def reply_corr(cx, a, sp, rng):
@@ -754,7 +864,8 @@ def run(R, escalate=False):
         R.count("parse_stream", "other-files", len(extra))
         R.count("parse_stream", "single-char-edits", len(mutated))
         R.count("parse_stream", "affixes/case", len(affixed))
-        parse_corr(R, co, base + extra + mutated + affixed + ["", ":", "N", "N7", "N7:", "{", "N7:0{}", "N7:0{", "B3/", "I:", "O:0/", "T4:0.", "S:"])
+        parse_corr(R, co, base + extra + mutated + affixed + ["", ":", "N", "N7", "N7:", "{", "N7:0{}", "N7:0{", "B3/", "I:", "O:0/", "T4:0.", "S:"],
+                   cx=cx, rng=rng, budget=6000 if thorough else 700)
     finally:
         logging.disable(logging.NOTSET)
         co.close()
